@@ -495,6 +495,37 @@ package mail
 // the line breaker of writeBody writes to its own out (a local buffer) and nowhere else
 //@ func mail.base64LineBreaker.Close () (err)
 //@   modifies[C12:frame] l.out.sinkacc, l.out.wfailed, l.out.col, l.out.maxcol, l.out.bare
+// never silent success: when the destination refuses a write during a render, mw.err is set afterwards
+// (wfailed: ghost flag of the destination, set by any Write that returned an error)
+//@ pred failrep(mw *mail.msgWriter) = (mw.writer.wfailed && !old(mw.writer.wfailed)) ==> mw.err != nil
+//@ func mail.msgWriter.writeHeader (key, values)
+//@   ensures[C12:failure-reported] failrep(mw)
+//@ func mail.msgWriter.startMP (mimeType, boundary) (b)
+//@   ensures[C12:failure-reported] failrep(mw)
+//@ func mail.msgWriter.stopMP
+//@   ensures[C12:failure-reported] failrep(mw)
+//@ func mail.msgWriter.newPart (header)
+//@   ensures[C12:failure-reported] failrep(mw)
+//@ func mail.msgWriter.writeBody (writeFunc, encoding)
+//@   ensures[C12:failure-reported] failrep(mw)
+//@ func mail.msgWriter.writePart (part, charset)
+//@   ensures[C12:failure-reported] failrep(mw)
+//@ func mail.msgWriter.addFiles (files, isAttachment)
+//@   ensures[C12:failure-reported] failrep(mw)
+//@   loop 1 invariant[C12:failure-reported] failrep(mw)
+//@   loop 2 invariant[C12:failure-reported] failrep(mw)
+//@   loop 3 invariant[C12:failure-reported] failrep(mw)
+//@ func mail.msgWriter.writeGenHeader (msg)
+//@   ensures[C12:failure-reported] failrep(mw)
+//@   loop 2 invariant[C12:failure-reported] failrep(mw)
+//@ func mail.msgWriter.writePreformattedGenHeader (msg)
+//@   ensures[C12:failure-reported] failrep(mw)
+//@   loop 2 invariant[C12:failure-reported] failrep(mw)
+//@ func mail.msgWriter.writeMsg (msg)
+//@   ensures[C12:failure-reported] failrep(mw)
+//@   loop 1 invariant[C12:failure-reported] failrep(mw)
+//@   loop 3 invariant[C12:failure-reported] failrep(mw)
+//@   loop 4 invariant[C12:failure-reported] failrep(mw)
 
 // ---------------------------------------------------------------------------
 // C06  Recipients are exactly To+Cc+Bcc, and Bcc stays hidden
